@@ -13,6 +13,10 @@ use std::rc::Rc;
 use std::sync::Arc;
 use std::time::Instant;
 
+#[cfg(feature = "verif")]
+#[path = "executor_verif.rs"]
+pub mod verif;
+
 /// Bundled program update data for incremental compilation.
 /// Contains full tuple type information for merging with Environment's Program state.
 #[derive(Debug, Clone, Serialize, Deserialize)]
@@ -1088,6 +1092,8 @@ impl<E: Effect> Executor<E> {
     /// Execute up to max_units instruction units for a single process.
     /// Returns (did_work, optional_action) where did_work indicates if any instructions were executed.
     pub fn step(&mut self, max_units: usize, current_time_ms: u64) -> (bool, Option<Action<E>>) {
+        #[cfg(feature = "verif")]
+        let max_units = verif::quantum().unwrap_or(max_units);
         // Reclaim slots that settled at count 0 since the last step. Doing it here (a quiescent
         // point — any Action returned by the previous step has been handled by the Environment,
         // and no Rust-local Value handles are live) is what makes deferred reclamation safe.
@@ -1114,6 +1120,8 @@ impl<E: Effect> Executor<E> {
             let Some(instruction) = Self::current_instruction(&proc, &self.functions) else {
                 break; // Process finished or no more instructions in current frame
             };
+            #[cfg(feature = "verif")]
+            verif::trace(current_pid, &proc);
 
             let step_result = if Self::is_cold(instruction) {
                 // Rare control/concurrency ops use the existing handlers, which expect the
@@ -1395,6 +1403,10 @@ impl<E: Effect> Executor<E> {
             }
             _ => unreachable!("hot instruction routed to execute_cold"),
         };
+        #[cfg(feature = "verif")]
+        if matches!(instruction, Instruction::Select) {
+            verif::select_exit(self, pid, &result);
+        }
 
         if let Some(start) = start {
             let elapsed = start.elapsed().as_nanos() as u64;
@@ -2575,6 +2587,8 @@ impl<E: Effect> Executor<E> {
         pid: ProcessId,
         current_time_ms: u64,
     ) -> Result<Option<Action<E>>, Error> {
+        #[cfg(feature = "verif")]
+        verif::select_enter(self, pid, current_time_ms);
         // Phase 1: Check if we're continuing from a receive function call
         let receive_result = self.handle_select_continuation(pid)?;
 
@@ -2690,6 +2704,8 @@ impl<E: Effect> Executor<E> {
             .collect();
 
         // Re-queue expired processes to retry their Select instruction
+        #[cfg(feature = "verif")]
+        let expired = verif::sorted(expired);
         for pid in expired {
             self.queue.push_back(pid);
             self.selecting.remove(&pid);
